@@ -256,7 +256,7 @@ func runCase(run *vf.Run, raw json.RawMessage, dir string) *vf.Result {
 		rng := rand.New(rand.NewSource(s.Seed))
 		for k := 0; k < s.N; k++ {
 			cfg := randomConfig(rng, s.Clients, s.MaxOps)
-			fr := runFree(cfg, rng)
+			fr := runFree(cfg)
 			res.Evals++
 			res.Count("free_histories", 1)
 			res.Count("free_history_operations", len(fr.history))
